@@ -64,7 +64,7 @@ func (s strategy) GetPublicKey() (ed25519.PublicKey, error) {
 	return s.priv.Public().(ed25519.PublicKey), nil
 }
 
-var strategies = []string{"honest", "honest", "parsed", "parsed", "wrongkey", "badsig", "otherdata", "shortsig", "longsig", "error"}
+var strategies = []string{"honest", "honest", "parsed", "parsed", "wrongkey", "badsig", "otherdata", "shortsig", "longsig", "error", "callerkey"}
 
 // bundleFile makes a file of n bytes whose last 8 bytes state trailer (default: n).
 func bundleFile(g *mon.Rand, n int, trailer *uint64) []byte {
@@ -179,6 +179,12 @@ func run(r *mon.Run) {
 				st = integrityblock.NewParsedEd25519KeySigningStrategy(keyBuf)
 			}
 			recPub, _ := st.GetPublicKey()
+			if kind == "callerkey" {
+				// a self-consistent strategy (the repository's own), but the CALLER of the exported method records another key:
+				// the signature must verify under the key that goes into the attributes, not under the strategy's idea of it
+				st = integrityblock.NewParsedEd25519KeySigningStrategy(append(ed25519.PrivateKey{}, priv...))
+				recPub = otherPub
+			}
 			attrs := integrityblock.GenerateSignatureAttributesWithPublicKey(recPub)
 			ex := extras(g)
 			for k2, v := range ex {
